@@ -182,52 +182,139 @@ def run(res, tier):
 
     # N3/N4: writer
     res.rule("R-WRITER-ORDER", "writer lays out the per-type maps in the reader's fall-through order with the same scaling and hash", floor=4)
-    ir = cfront.load_tu(UM, lang="cxx", filt="CopyNames")
+    # whole TU (cached by sa.setup): CopyNames, and the functions of the TU indexed by name (templates: first body)
+    ir = cfront.load_tu(UM, lang="cxx")
     wfn = None
+    tfuncs = {}
     for d in ir["decls"]:
         for n in cir.walk(d):
-            if n.get("k") in ("CXXMethodDecl", "FunctionDecl") and n.get("n") == "CopyNames" and cir.body(n) is not None:
-                wfn = n
+            if n.get("k") in ("CXXMethodDecl", "FunctionDecl") and cir.body(n) is not None:
+                if n.get("n") == "CopyNames" and wfn is None:
+                    wfn = n
+                tfuncs.setdefault(n.get("n"), n)
     if wfn is None:
         raise AnalysisError("mjCModel::CopyNames not found")
+
+    def _callees(fn):
+        out = set()
+        for c in cir.walk(fn):
+            if cir.is_call(c):
+                nm = cir.callee(c) or cir.text(cir.kids(c)[0])
+                out.add(nm)
+        return out
+
+    def _closure(fn, depth=3):
+        seen, work = {fn.get("n"): fn}, [(fn, 0)]
+        while work:
+            f_, d_ = work.pop()
+            if d_ >= depth:
+                continue
+            for nm in _callees(f_):
+                g_ = tfuncs.get(nm)
+                if g_ is not None and nm not in seen and g_.get("n") != "CopyNames":
+                    seen[nm] = g_
+                    work.append((g_, d_ + 1))
+        return seen
+    # the layout function: the TU function CopyNames calls (directly or inside a local lambda) for every list; it is the most
+    # frequent callee defined in this TU that is handed the names buffer
+    cnt = {}
+    for c in cir.walk(wfn):
+        if cir.is_call(c):
+            nm = cir.callee(c) or cir.text(cir.kids(c)[0])
+            if nm in tfuncs and any("names" in cir.text(a_) for a_ in cir.args(c)):
+                cnt[nm] = cnt.get(nm, 0) + 1
+    layout = tfuncs.get(max(cnt, key=cnt.get)) if cnt else None
+    if layout is None:
+        raise AnalysisError("CopyNames: the per-list layout function (a TU function handed m->names) was not identified")
+    lname = layout.get("n")
+    # writer order = the order in which CopyNames names the address arrays (directly or as arguments of a local lambda)
     worder = []
-    wadv = []
     for n in cir.walk(wfn):
-        if cir.is_call(n) and (cir.callee(n) == "namelist" or "namelist" in cir.text(cir.kids(n)[0])):
-            a = cir.args(n)
-            worder.append(cir.text(a[2]).replace("m->", ""))
-        if n.get("k") == "CompoundAssignOperator" and n.get("op") == "+=" and cir.text(cir.kids(n)[0]) == "map_adr":
-            wadv.append(cir.text(cir.kids(n)[1]))
+        if n.get("k") == "MemberExpr" and n.get("arrow") and re.fullmatch(r"name_\w+adr", n.get("n") or "") and n.get("n") not in worder:
+            worder.append(n.get("n"))
     if len(worder) < 20:
-        raise AnalysisError(f"only {len(worder)} namelist calls found in CopyNames")
+        raise AnalysisError(f"only {len(worder)} name address arrays named in CopyNames")
     if worder == order:
-        res.ok("R-WRITER-ORDER", "order", {"segments": len(order)})
+        res.ok("R-WRITER-ORDER", "order", {"segments": len(order), "layout_function": lname})
     else:
         i = next((i for i in range(min(len(worder), len(order))) if worder[i] != order[i]), min(len(worder), len(order)))
         res.bad("R-WRITER-ORDER", "order", UM, wfn.get("line"),
                 f"segment {i}: writer lays out {worder[i] if i < len(worder) else None}, reader expects {order[i] if i < len(order) else None}")
-    badadv = [t for t in wadv if not re.fullmatch(re.escape(str(mult)) * 1 + r" \* \w+\.size\(\)", t)]
-    if len(wadv) >= len(worder) - 1 and not badadv:
-        res.ok("R-WRITER-ORDER", "advance", {"advances": len(wadv)})
+    # after every segment (but possibly the last) the map cursor advances by mult * <that list>.size(); decided per body
+    # (the function itself and each local lambda): a layout call is followed by the advance for the same list before the next one
+    problems_adv = []
+    nadv = nseg = 0
+
+    def _bodies(fn):
+        yield fn.get("n"), cir.body(fn)
+        for x in cir.walk(fn):
+            if x.get("k") == "LambdaExpr":
+                for y in cir.kids(x):
+                    if y is not None and y.get("k") == "CompoundStmt":
+                        yield "lambda", y
+                    elif y is not None and y.get("k") == "CXXMethodDecl" and cir.body(y) is not None:
+                        yield "lambda", cir.body(y)
+
+    def _own(stmt):
+        """nodes of a statement outside nested lambdas"""
+        stack = [stmt]
+        while stack:
+            x = stack.pop()
+            if x is None:
+                continue
+            yield x
+            if x.get("k") == "LambdaExpr":
+                continue
+            stack.extend(reversed([c for c in cir.kids(x) if c is not None]))
+    for bname, body in _bodies(wfn):
+        pending = None
+        flat = []
+
+        def _flat(st):
+            for c in cir.kids(st):
+                if c is None:
+                    continue
+                if c.get("k") == "CompoundStmt":
+                    _flat(c)
+                else:
+                    flat.append(c)
+        _flat(body)
+        for st in flat:
+            for x in _own(st):
+                if cir.is_call(x) and (cir.callee(x) == lname or lname in cir.text(cir.kids(x)[0])):
+                    nseg += 1
+                    if pending is not None:
+                        problems_adv.append(f"two segments are laid out without advancing the map cursor in between ({pending})")
+                    pending = cir.text(cir.args(x)[0])
+                if x.get("k") == "CompoundAssignOperator" and x.get("op") == "+=" and "map" in cir.text(cir.kids(x)[0]):
+                    nadv += 1
+                    t = cir.text(cir.kids(x)[1])
+                    m_ = re.fullmatch(re.escape(str(mult)) + r" \* (\w+)\.size\(\)", t)
+                    if not m_:
+                        problems_adv.append(f"map cursor advance `{t}` is not {mult} * <list>.size()")
+                    elif pending is not None and m_.group(1) != pending:
+                        problems_adv.append(f"map cursor advances by the size of {m_.group(1)} after laying out {pending}")
+                    pending = None
+    if nseg == 0 or nadv == 0:
+        raise AnalysisError("CopyNames: layout calls / map cursor advances not found")
+    if not problems_adv:
+        res.ok("R-WRITER-ORDER", "advance", {"advances": nadv, "layout_calls": nseg})
     else:
-        res.bad("R-WRITER-ORDER", "advance", UM, wfn.get("line"),
-                f"map cursor advances {badadv[:2] or wadv[:1]} do not have the form {mult} * <list>.size() after every segment")
-    # namelist template: hash + modulus + probing
-    ir2 = cfront.load_tu(UM, lang="cxx", filt="namelist")
-    nl = None
-    for d in ir2["decls"]:
-        for n in cir.walk(d):
-            if n.get("k") == "FunctionDecl" and n.get("n") == "namelist" and cir.body(n) is not None and nl is None:
-                nl = n
-    if nl is None:
-        raise AnalysisError("namelist not found")
-    ms = [x for x in cir.walk(nl) if x.get("k") == "VarDecl" and x.get("init") and "size()" in cir.text([c for c in cir.kids(x) if c][-1])]
+        res.bad("R-WRITER-ORDER", "advance", UM, wfn.get("line"), "; ".join(problems_adv[:3]))
+    # layout function (with the helpers it calls): hash + modulus + probing
+    lclo = list(_closure(layout).values())
+
+    class _Multi(dict):
+        pass
+    nl = {"k": "Closure", "i": lclo}          # walked as one tree
+    ms = [x for x in cir.walk(nl) if x.get("k") == "VarDecl" and x.get("init") and "size()" in cir.text([c for c in cir.kids(x) if c][-1])
+          and cir.text([c for c in cir.kids(x) if c][-1]).startswith(f"{mult} * ")]
     hcalls = [c for c in cir.walk(nl) if cir.is_call(c) and "mj_hashString" in cir.text(cir.kids(c)[0])]
     okk = bool(ms) and bool(hcalls)
     if okk:
-        msname = ms[0].get("n")
-        mstext = cir.text([c for c in cir.kids(ms[0]) if c][-1])
-        okk = mstext.startswith(f"{mult} * ") and cir.text(cir.args(hcalls[0])[1]) == msname
+        msnames = {x.get("n") for x in ms}
+        okk = cir.text(cir.args(hcalls[0])[1]) in msnames
+        ms = [x for x in ms if x.get("n") == cir.text(cir.args(hcalls[0])[1])] or ms
     from .. import norm, linform as _lf
     rd = norm.canon(un, "mj_name2id", exclude=(GETNUM, "mj_hashString"))
     rbody = cir.body(rd)
